@@ -10,6 +10,7 @@ From RV Require Import Model.GeomPrims Model.ObbPrims Gen.LeafObb Model.Obb Proo
 From RV Require Import Model.ObbFilter Proofs.ObbFilter.
 From RV Require Import Model.FilterParPrims Gen.LeafFilterPar Model.FilterPar Proofs.FilterPar.
 From RV Require Import Model.ShapePath Gen.ShapePaths Model.PathValid Proofs.PathValid.
+From RV Require Import Model.MarkerPrims Gen.LeafMarkerAngle Proofs.MarkerAngle.
 Local Open Scope Q_scope.
 
 (* --- stroke ------------------------------------------------------------------------------- *)
@@ -391,3 +392,35 @@ Example C04_nv_filter_par :
   /\ convolve_div (Some (Fin 0)) [Fin 1] = None /\ spec_exp_ok (Fin (257 # 2)) = false /\ parse_target None 3 = Some 1%Z
   /\ parse_target (Some 3%Z) 3 = None.
 Proof. vm_compute. repeat split; reflexivity. Qed.
+
+(* === extension round 4, final pass: the angle of orient=auto marker instances (parser/marker.rs calc_angle) =========== *)
+(* `calc_angle`, `vector_angle`, `normalize` are the SOURCE-DERIVED definitions of Gen/LeafMarkerAngle.v (rs2coq over xq; atan2,
+   the f32 remainder `%` and hypot are parameters).  Under the contract of the two primitives the source calls (IEEE atan2:
+   NaN only for a NaN argument, otherwise a finite angle of magnitude <= pi < 4, also for zero / infinite arguments; fmod
+   of a finite dividend and a non-zero finite divisor: finite, not larger than the dividend) the angle in degrees is finite for
+   ALL finite vertex coordinates: coincident vertices (zero vectors: atan2(0,0), and whatever the guard `rad.is_nan()`
+   has to absorb) and differences that overflow f32 included.  Round-5 seed C04-15 (direction normalised by hypot, guard
+   dropped) makes this proof fail *)
+Theorem C04_marker_angle_finite : forall atan2_fn frem hypot_fn : xq -> xq -> xq,
+  (forall a b, xq_is_nan a = false -> xq_is_nan b = false -> exists q, atan2_fn a b = Fin q /\ - 4 <= q <= 4) ->
+  (forall A a b, - A <= a <= A -> ~ b == 0 -> exists q, frem (Fin a) (Fin b) = Fin q /\ - A <= q <= A) ->
+  forall x1 y1 x2 y2 x3 y3 x4 y4,
+    exists q, calc_angle atan2_fn frem hypot_fn (Fin x1) (Fin y1) (Fin x2) (Fin y2) (Fin x3) (Fin y3) (Fin x4) (Fin y4) = Fin q
+              /\ - 100000 <= q <= 100000.
+Proof. exact calc_angle_finite. Qed.
+Print Assumptions C04_marker_angle_finite.
+
+(* the hypotheses are satisfiable, and a zero vector takes the guarded branch when atan2 yields NaN for it *)
+Definition nv_atan2 (a b : xq) : xq := if xq_is_nan a || xq_is_nan b then NaN else Fin 0.
+Definition nv_atan2_nan0 (a b : xq) : xq := match a, b with Fin p, Fin q => if Qeqb p 0 && Qeqb q 0 then NaN else Fin 1 | _, _ => Fin 1 end.
+Definition nv_frem (a b : xq) : xq := Fin 0.
+Example C04_nv_marker_angle :
+  (forall a b, xq_is_nan a = false -> xq_is_nan b = false -> exists q, nv_atan2 a b = Fin q /\ - 4 <= q <= 4) /\
+  (forall A a b, - A <= a <= A -> ~ b == 0 -> exists q, nv_frem (Fin a) (Fin b) = Fin q /\ - A <= q <= A) /\
+  calc_angle nv_atan2_nan0 nv_frem nv_frem (Fin 20) (Fin 20) (Fin 20) (Fin 20) (Fin 20) (Fin 20) (Fin 100) (Fin 60) = Fin (0 # 262144).
+Proof.
+  split; [|split].
+  - intros a b Ha Hb. unfold nv_atan2. rewrite Ha, Hb. exists 0. split; [reflexivity|lra].
+  - intros A a b H _. exists 0. split; [reflexivity|lra].
+  - vm_compute. reflexivity.
+Qed.
